@@ -40,6 +40,8 @@ BASES = sorted(set(W.FAST) | {"h_selout", "h_dbadd", "h_transport", "h_adv", "h_
 EDGE_NUMS = ["0", "-1", "1e-30", "1e30", "1e308", "-1e308", "nan", "inf", "999999999", "1e-400", "0.0000000000000000000000001", "-0", "1e", "--1", "1.2.3", "2147483648", "-2147483649"]
 GARBAGE = ["\x00", "\xff\xfe", "\t\t\t", ";", "#", "\\", "END", "-", "(", ")", "\"", "'", "10 PRINT", "\r", "\r\n", "SOLUTION", "-file /nonexistent_dir/x", "INCLUDE$ nofile", "DATABASE x.dat\n", "  \n" * 3,
            "USER_PUNCH\n10 PUNCH 1/0\n", "RATES\n x\n -start\n10 GOTO 10\n -end\n", "KNOBS\n -iterations 0\n", "\x1a", "-" * 300]
+INCLUDE_TRAILER = ("PHASES\n Calcite\n CaCO3 = CO3-2 + Ca+2\n log_k -7.0\nSOLUTION_SPECIES\n Ca+2 + Cl- = CaCl+\n log_k 2.5\n Na+ + Cl- = NaCl\n log_k 1.0\nKNOBS\n -step_size 3\n"
+                   "SELECTED_OUTPUT 4\n -reset false\n -pH\nSOLUTION 60\n Ca 5\n Cl 10\n")
 PRIOR = "SOLUTION 900 prior water\n Na 1\n Cl 1\nEQUILIBRIUM_PHASES 900\n Halite 0 0\n Sylvite 0 0\nSAVE solution 901\nEND\n"
 PRIOR_MARKS = ["Halite", "Sylvite", "prior water"]
 
@@ -120,7 +122,7 @@ def generate(rng, tier, index):
     base = rng.choice(BASES)
     plan = {"prop": PROP, "family": fam, "base": base, "entry": rng.choice(["string", "string", "file", "acc"]), "edits": [], "fault": None,
             "probe": rng.choice(["p_full", "p_transport", "p_basic", "p_kin", "p_dump", "p_nosel", "p_surface", "p_advection"]), "prior_variant": rng.chance(50),
-            "setters": c07.gen_setters(rng, rng.range(0, 3)) if rng.chance(60) else []}
+            "setters": c07.gen_setters(rng, rng.range(0, 3)) if rng.chance(60) else [], "db2": rng.choice(["phreeqc", "phreeqc", "iso", "wateq4f"])}
     if fam == "input":
         plan["edits"] = gen_edits(rng, rng.range(1, 3))
     elif fam == "database":
@@ -128,7 +130,7 @@ def generate(rng, tier, index):
         plan["edits"] = gen_edits(rng, rng.range(1, 3))
         plan["entry"] = rng.choice(["string", "file"])
     elif fam == "file":
-        k = rng.choice(["missing_db", "missing_input", "missing_include", "read_eio_input", "read_eof_input", "read_eio_db", "read_short_input", "sink_open_fail", "sink_enospc", "sink_close_fail", "sink_short", "dump_open_fail", "sel_open_fail", "eintr_input"])
+        k = rng.choice(["missing_db", "missing_input", "missing_include", "read_eio_input", "read_eof_input", "read_eio_db", "read_short_input", "sink_open_fail", "sink_enospc", "sink_close_fail", "sink_short", "dump_open_fail", "sel_open_fail", "eintr_input", "include_fail_mid", "include_fail_mid"])
         plan["fault"] = {"kind": k, "at": rng.uniform(), "sink": rng.choice(["Output", "Log", "Error", "Dump"]), "param": rng.choice([0, 1, 17, 300, 4096])}
         if k.endswith("input") or k == "read_short_input":
             plan["entry"] = "file"
@@ -216,6 +218,13 @@ def bad_call_ops(plan, k=None, tgt="s1"):
             lines = txt.split("\n")
             i = int(f["at"] * len(lines))
             ops += inc + run("\n".join(lines[:i] + ["INCLUDE$ c08_not_there.inc"] + lines[i:]), plan["entry"], "mi")
+        elif kind == "include_fail_mid":
+            # the input is split over include files; a simulation in the middle of an include file fails (or names a missing nested include)
+            # while later lines of that file are still unread
+            bad = ["USE solution 99\nREACTION 1\n NaCl 1\n 1 mmol\nEND\n", "EQUILIBRIUM_PHASES 1\n Nonexistentite 0 1\nEND\n", "INCLUDE$ c08_nested_missing.pqi\nEND\n", "SOLUTION 2\n Na 1 bogus_units\nEND\n"][f["param"] % 4]
+            inc_text = txt + ("" if txt.endswith("\n") else "\n") + bad + INCLUDE_TRAILER
+            ops += inc + [["mkfile", "c08_inc_outer.pqi", inc_text]]
+            ops += run("TITLE split input\nINCLUDE$ c08_inc_outer.pqi\nSOLUTION 50\n K 1\n Cl 1\nEND\n", plan["entry"], "im")
         elif kind in ("read_eio_input", "read_eof_input", "read_short_input", "eintr_input"):
             ops += inc + [["mkfile", "c08_rf.pqi", txt]]
             fk = {"read_eio_input": "read_eio", "read_eof_input": "read_eof", "read_short_input": "read_short", "eintr_input": "eintr"}[kind]
@@ -250,7 +259,7 @@ def bad_call_ops(plan, k=None, tgt="s1"):
 
 
 def probe_plan(plan):
-    return {"segments": [{"setters": plan.get("setters", []) + sink_setters(plan)}], "db2": "phreeqc", "db2string": False, "post_setters": [], "probes": [plan["probe"]], "probe_entry": "string", "probe_files": False, "fault": None}
+    return {"segments": [{"setters": plan.get("setters", []) + sink_setters(plan)}], "db2": plan.get("db2", "phreeqc"), "db2string": False, "post_setters": [], "probes": [plan["probe"]], "probe_entry": "string", "probe_files": False, "fault": None}
 
 
 def check_plan(ctx, plan):
